@@ -466,8 +466,11 @@ class Project(MessageHandler):
             effort = task.get("effort", scIdx) or 0
             duration = task.get("duration", scIdx) or 0
             length = task.get("length", scIdx) or 0
-            start = task.get("start", scIdx)
-            end = task.get("end", scIdx)
+            # Only dates written on the task itself fix a milestone here; dates inherited
+            # from a container are bounds and leave the task to the main loop, which
+            # also honours its dependencies
+            start = task.get("start", scIdx) if task.provided("start", scIdx) else None
+            end = task.get("end", scIdx) if task.provided("end", scIdx) else None
 
             # Implicit milestone: has start/end but no duration metrics
             is_implicit_milestone = (start or end) and effort == 0 and duration == 0 and length == 0
